@@ -189,8 +189,6 @@ theorem rhLoop_good (bound : Nat) (hK : Sqfs.Consts.tarMaxSymlinkLen ≤ bound) 
                 refine ofR_good hal' (recordToMem_spec _ sz).1 (fun p hp => ?_)
                 obtain ⟨buf, rest⟩ := p
                 obtain ⟨hb, hle, _⟩ := (recordToMem_spec _ sz).2 buf rest hp
-                subst hb
-                refine ofR_good hal' (cstr_record_safe _ sz hle) (fun l _ => ?_)
                 exact ih _ _ _ _ (hrest sz _ rest hp) hal'
             · split
               · -- 'L'
@@ -206,8 +204,6 @@ theorem rhLoop_good (bound : Nat) (hK : Sqfs.Consts.tarMaxSymlinkLen ≤ bound) 
                   refine ofR_good hal' (recordToMem_spec _ sz).1 (fun p hp => ?_)
                   obtain ⟨buf, rest⟩ := p
                   obtain ⟨hb, hle, _⟩ := (recordToMem_spec _ sz).2 buf rest hp
-                  subst hb
-                  refine ofR_good hal' (cstr_record_safe _ sz hle) (fun l _ => ?_)
                   exact ih _ _ _ _ (hrest sz _ rest hp) hal'
               · split
                 · -- 'g'
